@@ -256,6 +256,34 @@ theorem codec_octets (env : Env) (I : Table) (hwf : WFEnv env I) (τ : Nat)
   obtain ⟨ts, he, hd⟩ := pdu_roundtrip env I hwf τ v hc
   exact ⟨ts, he, fun hw => ⟨C02.taglist_roundtrip ts hw, hd⟩⟩
 
+/-- **any_cast_roundtrip**: `Any.cast_out(klass)` of what `Any.cast_in(value)` put
+    into an (empty) Any is the value, for every class of a well-formed environment;
+    the tags are exactly the encoding of the value (so a PDU carrying the Any has
+    the octets of the value between its opening and closing tag). -/
+theorem any_cast_roundtrip (env : Env) (I : Table) (hwf : WFEnv env I) (τ : Nat) (d : TyDef)
+    (hτ : env[τ]? = some d) (v : Val) (hc : conforms env τ v = true) :
+    ∃ ts, castIn env (.ty τ) v = .ok ts ∧ encodeTy env τ v = .ok ts ∧
+      castOut env (.ty τ) ts = .ok v := by
+  obtain ⟨ts, he, hd⟩ := codec_roundtrip env I hwf τ v hc
+  have hdec := hd [] (Safe.nil _)
+  simp only [List.append_nil] at hdec
+  have hk : kindOf env (.ty τ) = .seqOf τ ∨ kindOf env (.ty τ) = .listOf τ ∨
+      kindOf env (.ty τ) = .struct τ := by
+    simp only [kindOf, hτ]
+    split <;> simp_all
+  refine ⟨ts, ?_, he, ?_⟩
+  · rcases hk with hk | hk | hk <;> simp [castIn, hk, he]
+  · rcases hk with hk | hk | hk <;> simp [castOut, hk, hdec]
+
+/-- the atomic case: one application tag in, the payload out -/
+theorem any_cast_roundtrip_atomic (env : Env) (a lvt : Nat) (data : Bytes)
+    (h : leafOK a lvt data = true) :
+    castIn env (.prim a) (.prim lvt data) = .ok [⟨.app, a, lvt, data⟩] ∧
+      castOut env (.prim a) [⟨.app, a, lvt, data⟩] = .ok (.prim lvt data) := by
+  constructor
+  · simp [castIn, kindOf, leafTag]
+  · simp [castOut, kindOf, prim_app_roundtrip h]
+
 /-! ## the generated environment -/
 
 /-- **gen_env_wf**: the environment generated from the live classes of the tree
